@@ -204,5 +204,26 @@ PROPS["C27"] = {
     "level_note": "Partial: CPython, pyo3 and the AdapterShim's iterator plumbing are outside any Coq model; the engine-agreement half is a differential run. Trusted: Coq kernel; the transcription PyConv.v incl. the modelled pyo3 primitives (tied by the probe run only); the driver's classification and renderers; the harness. Known classes: K-py-bigint-float, K-py-mixed-int-list.",
 }
 
+PROPS["C26"] = {
+    "coq": "theories/Properties/C26.v",
+    "bin": "tfh_c26",
+    "sub": "c26",
+    "n": {"quick": 300, "thorough": 3000},
+    "extra": {"quick": ["--compiles", "4"], "thorough": ["--compiles", "40"]},
+    "level": "proof",
+    "search_factor": 3,
+    "rule": "valid Trustfall schemas over the built-in scalars (every one accepted by trustfall_core Schema::parse first): a fixed corpus of 30 schemas (one witness per known class, F15's aB/AB, and adversarial schemas that must compile) plus n seeded random schemas with 1-5 vertex types (objects and interfaces with implementers, 0-3 properties and 0-3 edges per type with 0-2 parameters, 1-3 entry points), names drawn per mode: plain (no adversarial name), keywords (Rust strict/reserved/weak keywords and their case variants as type, property, edge, entry-point and parameter names), case (ab aB Ab AB a_b A_B a__b _ab ab_ a1 a_1 ... differing only in case/underscores/digits), mixed (all pools plus names that collide with identifiers of the stub's own scaffolding: contexts, parameters, resolve_info, resolve_neighbors_with, trustfall, Vertex, _ ...). Per schema three tie cases: the identifiers scanned out of the files generate_rust_stub wrote (enum variants, property/edge resolver fns, their references in adapter_impl.rs, edge modules with edge fns, their parameters and the as_* conversion each calls, entry-point fns with parameters; PANIC when the generator panics) vs the model's `generate`; the known-class membership computed by the harness vs the model's predicates; the identifier-level verdict. For every compiled schema a fourth case compares the model's verdict with rustc. Plus ~250 single names (all pools, both keyword lists, random strings over {a,b,A,B,Z,z,_,1,9,Q}) through the four name functions. A schema case is non-trivial when at least one of its names is outside the plain pools; distinct by rendered schema. Direct oracle on every schema: a stub must be produced (no panic) and the identifiers READ FROM THE FILES must satisfy the identifier-level necessary conditions (recomputed in Rust, independent of the model); compile oracle (`cargo test --no-run --offline` against /repo/trustfall, shared target dir .cache/target_c26): quick = derive probe + F15 witness + one plain + one keyword + one case/underscore schema outside every known class; thorough = probe + 40 compiled stubs (the whole corpus, the rest random with a quota per mode, mostly outside the known classes).",
+    "trusted_base": TB_COMMON + [
+        "rustc/cargo are the judges of 'compiles'; Coq decides only the identifier-level NECESSARY condition idents_ok (distinct definitions per namespace, called as_* conversions exist, no bare reserved word, parameters do not capture bindings of the scaffolding). That list of conditions was found by reading the templates and by compiling adversarial stubs; its completeness with respect to rustc is not provable and is only sampled by the compile oracle (the model's verdict must predict rustc on every compiled schema)",
+        "syn's treatment of reserved words is transcribed as literal lists (syn-2 ident.rs accept_as_ident; in parameter position Self/crate/super/_/true/false and a leading `self` parse, everything else panics in pretty_print_item); tied by the differential run",
+        "trustfall_derive's private to_lower_snake_case (names of the as_* methods) is transcribed; it is tied through a probe crate that derives TrustfallEnumVertex on ~80 adversarial variants and calls every predicted method (compiled on every run)",
+        "the text scanner that reads identifiers back from the generated files (regexes over prettyplease output) and the schema generator/renderer in harness/src/bin/tfh_c26.rs",
+        "identifiers are ASCII (GraphQL names); Rust's char::is_uppercase/to_lowercase are modelled on ASCII only",
+    ],
+    "assumptions": ["the schema is valid (accepted by Schema::parse) and uses only built-in scalar types; at the model level: type names non-empty and pairwise distinct, entry-point names distinct, parameter names distinct per field (wf_schema)", "stub crate: edition 2021, trustfall = path dependency on /repo/trustfall (as in trustfall_stubgen's own tests)"],
+    "level_text": "PARTIAL. 'Compiles' is rustc's judgement and is tested, not proved: stubs of generated schemas are compiled on every run. Coq (closed under the global context, all names of any length) decides the identifier level: the full statement 'guards pass => variants / resolver fns / as_* conversions distinct and no bare keyword' is REFUTED with concrete witnesses for eight defect classes of the generator (F15 K-variant-collision aB/AB; K-conversion-name-mismatch: stubgen and trustfall_derive snake-case differently, e.g. UserID with an edge; K-derive-conversion-collision AB/a_b; K-entrypoint-collision: no guard covers entry points; K-reserved-word-unescaped: parameters are never escaped and 12 reserved words plus `_` are missing from escaped_rust_name; K-parameter-capture; K-import-clash; K-crate-shadow), plus K-guard-rejects-valid-schema (the guards panic on valid schemas: no stub). Proved: the classification is COMPLETE at the identifier level (outside the nine classes every valid schema gets a stub and every identifier condition holds); with no class excluded the guards make property/edge resolver fns, edge modules and per-module edge fns pairwise distinct and the doubly snake-cased references resolve; exact characterisations of the guards (pass iff the escaped snake-case names are pairwise distinct), of when the generator panics, of which names stay reserved after escaping, and of when the called as_* conversion exists (no two adjacent upper-case letters in the variant); to_lower_snake_case is idempotent and never emits upper case. The tie re-runs the real generator against the model on ~330 schemas x 3 observables per run and the model's verdict is compared with rustc on every compiled stub.",
+    "level_note": "PARTIAL: rustc is outside Coq; idents_ok is a necessary condition assembled by inspection and experiment (sampled, not proved complete, against rustc). Trusted: Coq kernel; the transcription Names.v (tied by the differential run only) incl. syn's keyword list and trustfall_derive's snake case; the file scanner, generators and renderers of tfh_c26; cargo/rustc. Known classes: K-variant-collision (F15), K-conversion-name-mismatch, K-derive-conversion-collision, K-entrypoint-collision, K-reserved-word-unescaped, K-parameter-capture, K-import-clash, K-crate-shadow, K-guard-rejects-valid-schema.",
+}
+
 NOT_APPLICABLE = {}
 HOOK_COMMITS = []
